@@ -34,7 +34,7 @@ Tree == [p \in { <<>>, <<"a.txt">>, <<"a.css">>, <<"index.html">>, <<"sub">>, <<
            IF p \in { <<>>, <<"sub">>, <<"lib.js">> } THEN "dir" ELSE "file"]
 \* files that exist OUTSIDE the root, addressed relative to the root with leading ".."
 \* (root-internal is a sibling directory whose name starts with the root's name)
-Outside == { <<"..", "secret.txt">>, <<"..", "secret.css">>, <<"..", "root-internal", "key.css">> }
+Outside == { <<"..", "secret.txt">>, <<"..", "secret.css">>, <<"..", "root-internal", "key.css">>, <<"..", "index.html">> }
 
 \* path.Clean on a rooted path: '.' and '' vanish, '..' pops but never above the root
 RECURSIVE CleanFrom(_, _, _)
